@@ -128,7 +128,7 @@ open SerialIO
 
 def serialTables : Tables :=
   { fams := Gen.Serial.families, biv := Gen.Serial.bivTable, upper := String.toUpper,
-    gaussNoArg := Gen.Serial.gaussCtorNoArgs, vineNoArg := Gen.Serial.vineCtorNoArgs }
+    multiInstantiates := Gen.Serial.multiDispatchInstantiates, gaussNoArg := Gen.Serial.gaussCtorNoArgs, vineNoArg := Gen.Serial.vineCtorNoArgs }
 
 def commaList (xs : List String) : String := if xs.isEmpty then "-" else ",".intercalate xs
 
